@@ -20,7 +20,7 @@ RULE = (
     "partitions) and of 1xc rows, values assigned by position from magnitude classes {O(1), mixed signs, 2-digit "
     "exponents, 3-digit exponents of both signs, denormal, DBL_MAX}, real and complex; boundary sizes (65535/65536 rows, "
     "16383/16384-row dense string, 2999/3000/3001 values, empty/all-zero/0-column); x binary{T,F} x endian{<,>,=} x "
-    "sparse{auto,dense,bigmat,nonbigmat} x digits{1,5,9,16,17} x input{ndarray,coo,csr,csc} x read mode{dense,sparse,"
+    "sparse{auto,dense,bigmat,nonbigmat} x digits{1,5,9,16,17} x input{ndarray,coo,csr,csc, coo/csr with duplicate entries} x read mode{dense,sparse,"
     "auto,(True,tocsr)} x API{load dct/list, read, class methods, dir} x names x forms{None,1,2,6}; files of 1-3 "
     "matrices in every order incl. repeated names.  Oracle: same name/shape/form/type; values bit-exact (binary) or "
     "relative error <= 0.5*10^-digits (ASCII); dense == sparse reads; dir agrees.  signature = shape/nnz-structure/"
@@ -57,6 +57,8 @@ VALUE_CLASSES = {
     "exp2": [1.5e10, -2.25e-10, 3.1e25, -4e-31, 5.5e77, 6e-88, -7e99, 8e-99, 9.9e50],
     "exp3": [1.5e100, -2.25e-100, 3.1e250, -4e-250, -5.5e300, 6e-300, -7e199, 8e-199, -1e-100],
     "denormal": [5e-324, -1e-310, 2.2250738585072014e-308, -3e-320, 1e-315, -4.9e-324, 7e-309, 1e-312, -2e-323],
+    # complex values whose real and imaginary parts live on different magnitude scales (paired with the next value)
+    "mixcplx": [1.5, -2.5e-120, 2.25, -3e-200, -4.0, 5e150, -6.5e-101, 7.0, -8e-99],
     "dblmax": [DBL_MAX, -DBL_MAX, 1.0, -DBL_MAX / 2, DBL_MAX / 3, -1.0, 0.1, DBL_MAX, -0.1],
 }
 
@@ -69,7 +71,9 @@ def make_matrix(r, c, pattern, vclass, cplx):
         for i in range(r):
             if pattern >> (j * r + i) & 1:
                 v = vals[k % len(vals)]
-                if cplx:
+                if cplx and vclass == "mixcplx":
+                    v = complex(v, vals[(k + 1) % len(vals)])
+                elif cplx:
                     w = vals[(k + 3) % len(vals)]
                     if vclass == "dblmax":
                         w = w / 2
@@ -127,6 +131,22 @@ def close_digits(got, want, digits):
 def as_input(M, kind):
     if kind == "ndarray":
         return M
+    if kind in ("coo_dup", "csr_dup"):
+        # assembly-style sparse input: every non-zero stored as two entries v/2 + v/2 at the same (row, col)
+        # (exact for normal numbers); scipy defines the matrix value as the sum of duplicates
+        i, j = np.nonzero(M)
+        o = np.lexsort((i, j)) if kind == "coo_dup" else np.lexsort((j, i))
+        i, j = i[o], j[o]
+        v = M[i, j] / 2
+        ii = np.concatenate((i, i[::-1]))
+        jj = np.concatenate((j, j[::-1]))
+        vv = np.concatenate((v, v[::-1]))
+        A = sp.coo_matrix((vv, (ii, jj)), shape=M.shape)
+        if kind == "coo_dup":
+            return A
+        o = np.argsort(ii, kind="stable")
+        indptr = np.concatenate(([0], np.cumsum(np.bincount(ii, minlength=M.shape[0]))))
+        return sp.csr_matrix((vv[o], jj[o], indptr), shape=M.shape)
     return {"coo": sp.coo_matrix, "csr": sp.csr_matrix, "csc": sp.csc_matrix}[kind](M)
 
 
@@ -234,8 +254,8 @@ def configs(tier, cplx, which="all"):
     if which == "strings":  # string-partition study: layouts x endian; one ASCII width
         out = [c for c in out if c[0] or c[3] == 9]
     if which == "extra-input":
-        out = [(True, "<", s, 16, k) for s in ("auto", "nonbigmat") for k in ("csr", "csc")] + \
-              [(False, "=", s, 9, k) for s in ("auto", "bigmat") for k in ("csr", "csc")]
+        out = [(True, "<", s, 16, k) for s in ("auto", "nonbigmat", "dense", "bigmat") for k in ("csr", "csc", "coo_dup", "csr_dup")] + \
+              [(False, "=", s, 9, k) for s in ("auto", "bigmat", "dense", "nonbigmat") for k in ("csr", "csc", "coo_dup", "csr_dup")]
     return out
 
 
@@ -268,7 +288,7 @@ def run_matrix(M, tier, res, case_base, which="all", forms=(None,)):
 # ------------------------------------------------------------------ enumeration
 def small_cases(tier):
     q = tier == "quick"
-    vcs = ["o1", "signs", "exp3", "dblmax"] if q else list(VALUE_CLASSES)
+    vcs = ["o1", "signs", "exp3", "mixcplx", "dblmax"] if q else list(VALUE_CLASSES)
     out = []
     for r, c in itertools.product((1, 2, 3), (1, 2, 3)):
         n = r * c
@@ -281,6 +301,8 @@ def small_cases(tier):
             for vc in vcs:
                 for cplx in (False, True):
                     if q and cplx and vc in ("signs",):
+                        continue
+                    if vc == "mixcplx" and not cplx:
                         continue
                     out.append(dict(kind="small", r=r, c=c, pattern=p, vclass=vc, cplx=cplx))
     for p in range(1024):
@@ -354,9 +376,10 @@ def run_special(case, tier, res):
                     res.viol(dict(case, name=name, binary=binary), "name %r: %s" % (name, m), kind="names")
         return
     if k == "extra-input":
-        for p in (0b101101, 0b010011, 0b111111):
-            M = make_matrix(3, 2, p, "signs", False)
-            run_matrix(M, tier, res, dict(case, pattern=p), which="extra-input")
+        for p in range(1, 64):
+            for cplx in (False, True):
+                M = make_matrix(3, 2, p, "signs", cplx)
+                run_matrix(M, tier, res, dict(case, pattern=p, cplx=cplx), which="extra-input")
         return
     if k == "multi":
         pool = [("A", np.array([[1.0, 2.0], [3.0, 4.0]])), ("B", np.array([[0.0, 0.0, 5.0]])), ("A", np.array([[7.0], [0.0], [8.0 + 1j]])),
